@@ -300,7 +300,12 @@ def tasks(tier):
     from contracts.dul_reactor import DulReactorTask, TransportEventTask
     from contracts.C07 import RunReactorTask
     return [ConnectTask(), AcceptedSocketTask(), GetMsgTask(), ReceivePduTask(), BlockingCallScan(), QueueScan(), DulReactorTask(), RunReactorTask(),
-            TransportEventTask()]
+            TransportEventTask(), _negotiate_release()]
+
+
+def _negotiate_release():
+    from contracts.assoc_abort import NegotiateReleaseTask
+    return NegotiateReleaseTask()
 
 
 def replay(rec):
